@@ -92,7 +92,10 @@ def finishCall (r0 : Run) (k : Nat) : Run :=
       -- a call returns through the Transport, which stamps the connection; a stream is closed by its
       -- owner without the Transport seeing it (no stamp)
       let s := if c.form == "lstream" then step r.s (.callEnd id) else step (step r.s (.callEnd id)) (.stamp id)
-      { r with s := s, calls := r.calls.map fun c' => if c'.k == k then { c' with done := true, heldOn := none } else c' }
+      let r := { r with s := s, calls := r.calls.map fun c' => if c'.k == k then { c' with done := true, heldOn := none } else c' }
+      -- the stream's connection keeps its old stamp and may be due at the very next pass: three
+      -- passes go by before the observation (the harness waits for them too)
+      if c.form == "lstream" then syncTick r else r
     | none => r
   | none => r
 
